@@ -126,6 +126,8 @@ func checkC06(c *Check) {
 	c06StageOrder(c)
 	c06ResultsKept(c, "R7")
 	c06ActionParsed(c, "R8")
+	c06RcptMemory(c)
+	c06BodyOnce(c)
 
 	// ---- R2
 	c.Rule("R2", "no verdict is dropped: after an error of checkConnSender / checkRcpt / checkBody / applyResults the function neither reports success nor hands anything to a target", 8)
@@ -1270,4 +1272,177 @@ func c06ActionParsed(c *Check, rule string) {
 			c.Hold(rule, key, r.FI.Decl.Pos(), msg == "", msg)
 		}
 	}
+}
+
+
+// R9: the runner remembers which (check state, recipient) pairs were checked so that a check referenced in several
+// blocks sees a recipient once. The memory must not outlive a refusal: RCPT TO:<x> refused by a check leaves the
+// transaction open, the client may send the very same command again, and a pair still on record makes the runner
+// skip the check – the repeated command is accepted and the recipient delivered. Decided on checkRcpt's runner: in
+// the world "the result's Reject flag is set" no path from the store of the pair to the end of the runner avoids the
+// deletion of that pair (or the store is made only where the flag is clear).
+func c06RcptMemory(c *Check) {
+	c.Rule("R9", "checkRcpt: a (check state, recipient) pair does not stay on record when the check refused the recipient – evaluated in the world `result.Reject` on every path from the store to the runner's return (a repeated RCPT command is checked again, not waved through)", 1)
+	r0 := c.need("R9", pipelineRel, "checkRunner", "checkRcpt")
+	if r0 == nil {
+		return
+	}
+	info := r0.Info
+	isTable := func(e ast.Expr) bool {
+		// cr.checkedRcptsPerCheck[s]  (the per-state set)
+		ix, ok := ast.Unparen(e).(*ast.IndexExpr)
+		if !ok {
+			return false
+		}
+		fv := fieldOf(info, ix.X)
+		if fv == nil {
+			return false
+		}
+		m, isMap := fv.Type().Underlying().(*types.Map)
+		if !isMap {
+			return false
+		}
+		_, inner := m.Elem().Underlying().(*types.Map)
+		return inner
+	}
+	n := 0
+	msg := "undecided: no runner that records the recipient and calls CheckRcpt found in checkRcpt"
+	ast.Inspect(r0.FI.Decl.Body, func(x ast.Node) bool {
+		fl, ok := x.(*ast.FuncLit)
+		if !ok {
+			return true
+		}
+		var stage *ast.CallExpr
+		for _, call := range callsIn(fl.Body) {
+			if methodName(call) == "CheckRcpt" {
+				stage = call
+			}
+		}
+		if stage == nil {
+			return true
+		}
+		r := &RuleCtx{C: c, FI: r0.FI, F: c.P.FlowOf(info, fl.Body, r0.FI.Name()+"$runner"), Info: info}
+		var stores, deletes []Pt
+		for _, pt := range r.F.Points() {
+			switch st := pt.Node().(type) {
+			case *ast.AssignStmt:
+				for _, l := range st.Lhs {
+					if ix, ok := ast.Unparen(l).(*ast.IndexExpr); ok && isTable(ix.X) {
+						stores = append(stores, pt)
+					}
+				}
+			case *ast.ExprStmt:
+				if call, ok := st.X.(*ast.CallExpr); ok {
+					if id, isID := call.Fun.(*ast.Ident); isID && id.Name == "delete" && len(call.Args) == 2 && isTable(call.Args[0]) {
+						deletes = append(deletes, pt)
+					}
+				}
+			}
+		}
+		if len(stores) == 0 {
+			return true
+		}
+		n++
+		// the variable holding the stage result
+		var res types.Object
+		if sp, ok := r.F.PtOfNode(stage); ok {
+			if as, isAs := sp.Node().(*ast.AssignStmt); isAs && len(as.Lhs) == 1 {
+				res = objOf(info, as.Lhs[0])
+			}
+		}
+		world := r.F.World(func(atom ast.Expr) (bool, bool) {
+			if sel, ok := ast.Unparen(atom).(*ast.SelectorExpr); ok && sel.Sel.Name == "Reject" && res != nil && objOf(info, sel.X) == res {
+				return true, true
+			}
+			return false, false
+		})
+		msg = ""
+		if res == nil {
+			msg = "the recipient is recorded as checked and the result of CheckRcpt is handed on without being looked at: a refusal leaves the pair on record, the same RCPT command sent again is not checked and is accepted"
+			return false
+		}
+		exit := func(q Pt) bool { return r.F.IsExitPt(q) }
+		if path, f := r.F.Reach(Query{From: stores, Target: exit, Avoid: isPt(deletes), AvoidEdge: world}); f {
+			msg = "the recipient stays recorded as checked although the check refused it: the client repeats the refused RCPT command, the runner skips the check (`already checked`) and the recipient is accepted and delivered: " + r.F.Describe(path)
+		}
+		return false
+	})
+	c.Hold("R9", "checkRcpt:refusal-not-remembered", r0.FI.Decl.Pos(), msg == "" && n > 0, msg)
+}
+
+// R10: "each applicable check sees the body exactly once per message, including the same check referenced in several
+// blocks". The body stage is run once per block list (global, source, every destination block in use); a check
+// referenced in several lists has ONE state. The runner of checkBody must therefore keep a record per state, consult
+// it before CheckBody and enter the state on the miss edge – as the recipient stage does.
+func c06BodyOnce(c *Check) {
+	c.Rule("R10", "checkBody: the body-stage call on a check state is guarded by a per-state record – looked up before CheckBody, returning without the call on a hit, entered on the miss edge (a check referenced in several blocks sees the body once)", 1)
+	r0 := c.need("R10", pipelineRel, "checkRunner", "checkBody")
+	if r0 == nil {
+		return
+	}
+	info := r0.Info
+	msg := "undecided: no runner calling CheckBody found in checkBody"
+	ast.Inspect(r0.FI.Decl.Body, func(x ast.Node) bool {
+		fl, ok := x.(*ast.FuncLit)
+		if !ok {
+			return true
+		}
+		var stage *ast.CallExpr
+		for _, call := range callsIn(fl.Body) {
+			if methodName(call) == "CheckBody" {
+				stage = call
+			}
+		}
+		if stage == nil {
+			return true
+		}
+		var stateObj types.Object
+		if fl.Type.Params != nil && len(fl.Type.Params.List) == 1 && len(fl.Type.Params.List[0].Names) == 1 {
+			stateObj = info.Defs[fl.Type.Params.List[0].Names[0]]
+		}
+		r := &RuleCtx{C: c, FI: r0.FI, F: c.P.FlowOf(info, fl.Body, r0.FI.Name()+"$bodyrunner"), Info: info}
+		sp, okS := r.F.PtOfNode(stage)
+		keyedByState := func(e ast.Expr) bool {
+			ix, ok := ast.Unparen(e).(*ast.IndexExpr)
+			return ok && stateObj != nil && objOf(info, ix.Index) == stateObj && fieldOf(info, ix.X) != nil
+		}
+		var lookups, stores []Pt
+		var okObj types.Object
+		for _, pt := range r.F.Points() {
+			if as, isAs := pt.Node().(*ast.AssignStmt); isAs {
+				if len(as.Lhs) == 2 && len(as.Rhs) == 1 && keyedByState(as.Rhs[0]) {
+					lookups = append(lookups, pt)
+					okObj = objOf(info, as.Lhs[1])
+				}
+				for _, l := range as.Lhs {
+					if keyedByState(l) {
+						stores = append(stores, pt)
+					}
+				}
+			}
+		}
+		switch {
+		case !okS:
+			msg = "undecided: the stage call is not located in the control-flow graph"
+		case len(lookups) == 0 || len(stores) == 0 || okObj == nil:
+			msg = "the runner calls CheckBody for every state of the list it is given, without a per-state record: a check referenced in the global, the source and a destination block sees the body once per block (three times) – its header fields and authentication results are merged repeatedly, and a check that reads a one-shot channel in CheckBody (SPF) blocks for ever on the second call"
+		default:
+			msg = ""
+			hit := r.F.World(func(atom ast.Expr) (bool, bool) {
+				if objOf(info, ast.Unparen(atom)) == okObj {
+					return true, true
+				}
+				return false, false
+			})
+			if path, f := r.F.Reach(Query{From: r.Entry(), Inclusive: true, Target: func(q Pt) bool { return q == sp }, AvoidEdge: hit}); f {
+				msg = "CheckBody is reached although the state is already on record (shown the body before): " + r.F.Describe(path)
+			} else if okMP, w := r.MustPass(r.Entry(), true, func(q Pt) bool { return q == sp }, isPt(stores)); !okMP {
+				msg = "CheckBody can be called without the state having been entered in the record: the next block list shows it the body again: " + w
+			} else if okMP2, w2 := r.MustPass(r.Entry(), true, func(q Pt) bool { return q == sp }, isPt(lookups)); !okMP2 {
+				msg = "CheckBody can be called without the record having been consulted: " + w2
+			}
+		}
+		return false
+	})
+	c.Hold("R10", "checkBody:once-per-state", r0.FI.Decl.Pos(), msg == "", msg)
 }
